@@ -990,6 +990,27 @@ func (un *Unit) evCall(e *ECall, sc *Scope) SV {
 	case "fresh":
 		x := arg(0)
 		return boolSV("(>= " + un.refOf(x) + " " + un.next(sc.old) + ")")
+	case "chlog", "lastsent", "lastrecv":
+		// chlog(ch, i): the i-th value sent on ch; lastsent(ch) = chlog(ch, sent(ch)-1); lastrecv(ch) = chlog(ch, recvd(ch)-1)
+		x := arg(0)
+		var elem types.Type
+		if x.typ != nil {
+			elem = chanElem(x.typ)
+		}
+		if elem == nil {
+			return sc.fail("%s: not a channel", e.Fun)
+		}
+		sent, recvd, _, log := un.chComps(elem)
+		var idx string
+		switch e.Fun {
+		case "chlog":
+			idx = arg(1).t
+		case "lastsent":
+			idx = "(- " + sel(un.get(sc.cur, sent), x.t) + " 1)"
+		default:
+			idx = "(- " + sel(un.get(sc.cur, recvd), x.t) + " 1)"
+		}
+		return SV{t: sel(un.get(sc.cur, log), x.t, idx), typ: elem}
 	case "arr":
 		// arr(b): the backing array (the page, for mmap'd memory) of slice b
 		x := arg(0)
@@ -1447,6 +1468,17 @@ func (un *Unit) havocLvalue(text string, sc *Scope, st *State) {
 		}
 		return
 	}
+	if strings.HasPrefix(text, "all ") {
+		cs, err := un.allComps(strings.TrimSpace(text[4:]), sc)
+		if err != nil {
+			un.outside = "contract error: " + err.Error()
+			return
+		}
+		for _, c := range cs {
+			un.havocComp(st, c)
+		}
+		return
+	}
 	if text == "clock" {
 		old := un.clock(st)
 		n := un.havocComp(st, "G_clock")
@@ -1591,6 +1623,10 @@ func (un *Unit) loopScope(fr *Frame, li *loopInfo, st *State) *Scope {
 }
 
 func (un *Unit) entryFor(fr *Frame) *State {
+	// with `opt old-at-acquire`, old(...) in loop invariants denotes the state right after the first acquisition too
+	if fr.fn == un.fn && un.acquireSnap != nil {
+		return un.acquireSnap
+	}
 	return un.entry
 }
 
